@@ -80,4 +80,11 @@ PROPS = {
         rule="Same histories as C08, always with a name mapping (exact, whole-database, both for one source database, unrelated), source database default / empty / other, Map.Range iteration order chosen per run through the verif hook; every downstream call (18 op kinds, 4 API events, 3 readiness probes) is compared with the reference mapping. The 5 DML message types are covered by the C07 check (same mapping function, same shapes).",
         assumptions=["rig WD: see C08", "for database-level operations on a source database that has only collection-level entries the property does not fix the target name: the source name and the target database of any such entry are accepted"],
     ),
+    "C16": dict(
+        rig="R", runs=dict(quick=2000, thorough=60000),
+        nontrivial_probes=["unequal_counts", "quota_reached", "two_or_more_assignments"],
+        must_hit=["unequal_counts", "quota_reached", "two_or_more_assignments"],
+        rule="Rig R with SourceChannelNum != TargetChannelNum (1-4 source, 1-4 downstream channels, both directions and equal), 2-5 collections whose shards the downstream places on channels of its own choice; starts are serialised, their order and the progress of the wait/forward goroutines (5 s tickers under the simulated clock) are the scheduler's. The assignment table is read through the verif accessor after every step.",
+        assumptions=[R_REAL, "totality is not judged: a source channel whose only offered downstream channels are full waits, which the property does not exclude"],
+    ),
 }
